@@ -520,3 +520,8 @@ MUTANTS = [
             continue;""", 'new': """        if(chk->valid != 0)
             continue;""", 'expect': None},
 ]
+
+
+# SESSION7b additions to the claim (round 8, DESIGN 12.6)
+CLAIM['technique'] += "; header offset followed through parameters to the callers' arguments"
+CLAIM['text'] += ' C10-b (extended): the offset added to a chunk start is the header length announced in the lead, however it reaches range_add().'
